@@ -299,16 +299,32 @@ class Program:
     def subclasses(self, cls: str) -> List[str]:
         return [c for c in self.classes if cls in self.mro(c)[1:]]
 
+    def rebinding_args(self, call):
+        """(class expr, name expr, value expr) of `_set_attr_and_docstring(Cls, "name", value)` / `_set_docstring(...)`, by position or by the
+        parameter names of the helper"""
+        helper = self.functions.get("pfhedge._utils.doc." + call.func.id) if isinstance(call.func, ast.Name) else None
+        names = [a.arg for a in helper.node.args.args] if helper is not None else ["object", "name", "value"]
+        got = dict(zip(names, call.args))
+        for k in call.keywords:
+            if k.arg is not None:
+                got[k.arg] = k.value
+        if len(names) >= 3 and all(n in got for n in names[:3]):
+            return [got[n] for n in names[:3]]
+        return None
+
     def _apply_rebinding(self):
         """_set_attr_and_docstring(Cls, "name", Base.name) re-binds a class attribute."""
         for mod in self.modules.values():
             for st in mod.tree.body:
                 if isinstance(st, ast.Expr) and isinstance(st.value, ast.Call):
                     c = st.value
-                    if isinstance(c.func, ast.Name) and c.func.id == "_set_attr_and_docstring" and len(c.args) == 3:
-                        cls = self.resolve_name(mod.name, ast.unparse(c.args[0]))
-                        name = c.args[1].value if isinstance(c.args[1], ast.Constant) else None
-                        target = self.resolve_name(mod.name, ast.unparse(c.args[2]))
+                    if isinstance(c.func, ast.Name) and c.func.id == "_set_attr_and_docstring":
+                        a3 = self.rebinding_args(c)
+                        if a3 is None:
+                            continue
+                        cls = self.resolve_name(mod.name, ast.unparse(a3[0]))
+                        name = a3[1].value if isinstance(a3[1], ast.Constant) else None
+                        target = self.resolve_name(mod.name, ast.unparse(a3[2]))
                         if cls in self.classes and name and target:
                             # Base.name -> resolve through MRO of Base
                             bcls, _, meth = target.rpartition(".")
